@@ -69,12 +69,11 @@ def determinism_selftest(prop, base_seed, n=12):
     jobs = checks.jobs_for(prop, 'quick')
     step = max(1, len(jobs) // n)
     sample = jobs[::step][:n]
-    digests = []
-    for profile, index, extra in sample:
-        plan = checks.make_plan(prop, profile, base_seed, index, extra)
-        d1 = runner.run_plan(copy.deepcopy(plan), [prop])['digest']
-        d2 = runner.run_plan(copy.deepcopy(plan), [prop])['digest']
-        digests.append((profile, index, d1, d2))
+    plans = [checks.make_plan(prop, profile, base_seed, index, extra) for profile, index, extra in sample]
+    first = [runner.run_plan(copy.deepcopy(p), [prop])['digest'] for p in plans]
+    # second pass in reverse order in the same process: catches state leaking from one run into the next
+    second = [runner.run_plan(copy.deepcopy(p), [prop])['digest'] for p in reversed(plans)][::-1]
+    digests = [(s_[0], s_[1], a, b) for s_, a, b in zip(sample, first, second)]
     mismatches = [(p, i) for p, i, a, b in digests if a != b]
     env = dict(os.environ)
     env['PYTHONHASHSEED'] = '4242'
